@@ -4,7 +4,7 @@
    This file only restates the property theorems; proofs are in frame/*Proofs.v. *)
 From Coq Require Import List NArith ZArith Bool.
 From JV Require Import Bytes FrameBase FrameBaseProofs FrameSpec Split SplitProofs Hdr HdrProofs
-  HdrSpec HdrSpecProofs JsonScan JsonScanProofs RawJson RawJsonProofs.
+  HdrSpec HdrSpecProofs JsonScan JsonScanProofs RawJson RawJsonProofs FrameMore.
 From RecordUpdate Require Import RecordUpdate.
 From JV Require Import Msg SrvModel SrvC12.
 Import ListNotations.
@@ -29,6 +29,12 @@ Theorem c12_split_sound : forall b s r st rest,
   Split.recv cfg_fixed b tt s = Ok r st rest -> SplitSpec.frame b s r rest.
 Proof. exact split_sound. Qed.
 Print Assumptions c12_split_sound.
+
+(* completeness: every frame of the reference grammar is returned, whatever follows it *)
+Theorem c12_split_complete : forall b r rest,
+  ~ In b r -> Split.recv cfg_fixed b tt (r ++ b :: rest) = Ok r tt rest.
+Proof. exact split_complete. Qed.
+Print Assumptions c12_split_complete.
 
 (* bytes returned together with an error are the WHOLE unterminated tail (fix F6) *)
 Theorem c12_split_partial_whole : forall b s r e st rest,
